@@ -7,8 +7,10 @@ set -e
 S=${1:-/tmp/hvcov}
 B=$(ls -d /root/.rustup/toolchains/nightly-x86_64-unknown-linux-gnu/lib/rustlib/*/bin | head -1)
 mkdir -p $S/prof
-( cd /verif/harness && CARGO_TARGET_DIR=$S/target RUSTFLAGS="-C instrument-coverage --cfg honeycomb_verif" \
-    cargo build --release --offline 2>&1 | tail -1 )
+# LLVM_PROFILE_FILE during the build too: instrumented build scripts and proc-macros otherwise drop default_*.profraw files
+# into the crates' own directories (cargo registry, /repo)
+( cd /verif/harness && CARGO_TARGET_DIR=$S/target LLVM_PROFILE_FILE=$S/build-%p-%m.profraw \
+    RUSTFLAGS="-C instrument-coverage --cfg honeycomb_verif" cargo build --release --offline 2>&1 | tail -1 )
 rm -f $S/prof/*.profraw
 for p in C01 C02 C03 C04 C05 C06 C08 C09 C10 C11 C12 C13 C14 C15 C16 C17 C18 C19; do
   HV_IMPL_OVERRIDE=$S/target/release/hcimpl LLVM_PROFILE_FILE=$S/prof/$p-%p-%m.profraw VERIF_SEED=1 \
@@ -20,3 +22,4 @@ $B/llvm-cov report $S/target/release/hcimpl -instr-profile=$S/all.profdata -show
 $B/llvm-cov show $S/target/release/hcimpl -instr-profile=$S/all.profdata -format=text -show-line-counts-or-regions \
    $(find /repo/honeycomb-core/src /repo/honeycomb-kernels/src -name '*.rs') > $S/show.txt 2>/dev/null || true
 python3 /verif/tools/tiecov_report.py $S
+rm -rf $S
